@@ -132,6 +132,9 @@ func longLivedTypes(p *Prog) map[string]bool {
 	add(p.Named(Rel("app"), "App"))
 	add(p.Named(Rel("app/keepers"), "AppKeepersWithKey"))
 	add(p.Named(Rel("x/did/client/crypto"), "KeyStore"))
+	for _, n := range sdkFacingTypes(p) {
+		add(n)
+	}
 	for _, root := range p.Roots {
 		if !strings.HasPrefix(root.PkgPath, ModPath) || root.Types == nil {
 			continue
@@ -495,6 +498,28 @@ func consensusEntries(p *Prog) []*ssa.Function {
 	for _, fns := range upgradeHandlerFns(p, w) {
 		out = append(out, fns...)
 	}
+	// methods of module types handed to the SDK as interfaces (parameter stores, hooks, decorators): those that take an
+	// sdk.Context are called while blocks are processed
+	for _, n := range sdkFacingTypes(p) {
+		for _, T := range []types.Type{n, types.NewPointer(n)} {
+			ms := p.SSA.MethodSets.MethodSet(T)
+			for i := 0; i < ms.Len(); i++ {
+				f := p.SSA.MethodValue(ms.At(i))
+				if f == nil || f.Synthetic != "" || !InModule(f) || f.Blocks == nil {
+					continue
+				}
+				takesCtx := false
+				for _, prm := range f.Params {
+					if strings.HasSuffix(prm.Type().String(), "cosmos-sdk/types.Context") {
+						takesCtx = true
+					}
+				}
+				if takesCtx {
+					out = append(out, f)
+				}
+			}
+		}
+	}
 	return out
 }
 
@@ -544,4 +569,51 @@ func isRefType(t types.Type) bool {
 		return true
 	}
 	return false
+}
+
+var sdkFacing []*types.Named
+
+// sdkFacingTypes: struct types of the module whose values the application wiring hands to code outside the module as an
+// interface (a parameter store given to baseapp, a hook, an ante decorator …). The SDK keeps such a value for the life of the
+// process and calls its methods during block processing.
+func sdkFacingTypes(p *Prog) []*types.Named {
+	if sdkFacing != nil {
+		return sdkFacing
+	}
+	seen := map[string]bool{}
+	sdkFacing = []*types.Named{}
+	for _, fn := range p.ModFuncs {
+		if !(InPkgs(fn, "app") || InPkgs(fn, "x")) || p.IsGenerated(fn) {
+			continue
+		}
+		for _, cs := range callSites(fn) {
+			if cs.Callee != nil && InModule(cs.Callee) {
+				continue
+			}
+			for _, a := range cs.Instr.Common().Args {
+				mi, ok := a.(*ssa.MakeInterface)
+				if !ok {
+					continue
+				}
+				t := mi.X.Type()
+				if pt, isPtr := t.Underlying().(*types.Pointer); isPtr {
+					t = pt.Elem()
+				}
+				n, ok := t.(*types.Named)
+				if !ok || n.Obj().Pkg() == nil || !strings.HasPrefix(n.Obj().Pkg().Path(), ModPath) || seen[n.String()] {
+					continue
+				}
+				if _, isStruct := n.Underlying().(*types.Struct); !isStruct {
+					continue
+				}
+				name := n.Obj().Name()
+				if strings.HasPrefix(name, "AppModule") || name == "App" || strings.HasPrefix(name, "Msg") || strings.HasPrefix(name, "Query") || strings.HasPrefix(name, "Genesis") || isWireStruct(p, n) {
+					continue
+				}
+				seen[n.String()] = true
+				sdkFacing = append(sdkFacing, n)
+			}
+		}
+	}
+	return sdkFacing
 }
